@@ -168,6 +168,37 @@ theorem bounded_of_threads (v0 n : Nat) (hn : n < M32) (es : List Ev)
     (hall : ∀ e ∈ es, e.tid < n) : BoundedRun (init v0) es :=
   boundedRun_of_threads v0 n hn es hall
 
+/-- **No contender is stranded on a free lock (hand-off).**  Whenever tickets are outstanding
+    (`gTicket < gUsers`: somebody drew a ticket that has not been released yet) and nobody
+    holds the lock, the thread whose ticket is being served exists, is still in its spin
+    loop, and its next load of `ticket` IS enabled and ends the loop — so an unlock store
+    always admits exactly the next contender in ticket order, and a lock nobody holds with
+    contenders queued cannot persist once that contender is scheduled. -/
+theorem no_stranded_contender (v0 : Nat) (es : List Ev) (s : St)
+    (hr : (sys v0).run es = some s) (hb : BoundedRun (init v0) es)
+    (hout : s.gTicket < s.gUsers) (hfree : ∀ t, holder (s.pc t) = false) :
+    ∃ t my s', s.pc t = .spinning my s.gTicket ∧
+      step s (.ldTicket t s.ticket) = some s' ∧ s'.pc t = .lockDone ∧
+      s'.acq = s.acq ++ [t] := by
+  have hi := inv_of_run hr hb
+  obtain ⟨t, h | ⟨_, h⟩⟩ := own_of_run hr hb s.gTicket (Nat.le_refl _) hout
+  · obtain ⟨my, hpc⟩ := h
+    have hmy := (hi.spin t my _ hpc).1
+    have htk := hi.tk
+    refine ⟨t, my, { s with acq := s.acq ++ [t], pc := upd s.pc t .lockDone }, hpc, ?_, ?_, rfl⟩
+    · simp [step, hpc, htk, hmy]
+    · simp [upd]
+  · rw [hfree t] at h; cases h
+
+/-- Every outstanding ticket has exactly one owner: the holder (ticket `gTicket`) or one
+    thread in its spin loop — tickets are neither lost nor shared, across wrap-around. -/
+theorem ticket_owned_once (v0 : Nat) (es : List Ev) (s : St)
+    (hr : (sys v0).run es = some s) (hb : BoundedRun (init v0) es)
+    (k : Nat) (h1 : s.gTicket ≤ k) (h2 : k < s.gUsers) :
+    (∃ t, (∃ my, s.pc t = .spinning my k) ∨ (k = s.gTicket ∧ holder (s.pc t) = true)) ∧
+    ∀ t1 t2 my1 my2, s.pc t1 = .spinning my1 k → s.pc t2 = .spinning my2 k → t1 = t2 :=
+  ⟨own_of_run hr hb k h1 h2, fun t1 t2 my1 my2 a b => (inv_of_run hr hb).inj t1 t2 my1 my2 k a b⟩
+
 /-! ### non-vacuity: concrete accepted traces -/
 
 /-- Three threads, counters start at 2^32 − 1 and wrap: thread 0 locks, thread 1 queues and
@@ -204,5 +235,12 @@ example : ∃ es s s', (sys 4294967295).run es = some s ∧
     step s (.ldTicket 1 0) = some s' ∧ s'.pc 1 = .lockDone := by
   refine ⟨wrapTrace.take 18, _, _, rfl, bounded_of_threads _ 3 (by decide) _ (by decide),
     by decide, rfl, by decide⟩
+
+/-- the hypotheses of `no_stranded_contender` are satisfiable: after thread 0's unlock store
+    (event 17 of `wrapTrace`) thread 1 is queued on a lock nobody holds -/
+example : ∃ es s, (sys 4294967295).run es = some s ∧ BoundedRun (init 4294967295) es ∧
+    s.gTicket < s.gUsers ∧ s.pc 1 = .spinning 0 s.gTicket ∧ s.pc 0 = .unlockDone := by
+  refine ⟨wrapTrace.take 17, _, rfl, bounded_of_threads _ 3 (by decide) _ (by decide),
+    by decide, by decide, by decide⟩
 
 end LibfiberVerif.Spin
